@@ -36,6 +36,8 @@ type world struct {
 	ref     *ref.MBC
 	hist    []string
 	checks  int
+	stored  [8]uint16 // the control-area addresses stored to most recently
+	nstored int
 }
 
 var imgCache = map[uint32][]byte{}
@@ -107,6 +109,10 @@ func (w *world) expectByte(page, off int) byte {
 func (w *world) write(addr uint16, v uint8) {
 	w.m.Mem.Write(addr, v)
 	w.ref.Write(addr, v)
+	if addr < 0x8000 {
+		w.stored[w.nstored%len(w.stored)] = addr
+		w.nstored++
+	}
 	if len(w.hist) < 12 {
 		w.hist = append(w.hist, fmt.Sprintf("%04X<-%02X", addr, v))
 	} else {
@@ -134,6 +140,22 @@ func (w *world) check(what string) bool {
 		w.c.Count("ram_accesses_before_rom_reads", 1)
 	}
 	lo, hi := w.ref.LowPage(), w.ref.HighPage()
+	// "writes never change ROM contents": the very bytes that were stored to most recently
+	for k := 0; k < len(w.stored) && k < w.nstored; k++ {
+		a := w.stored[k]
+		off, page, win := int(a&0x3fff), lo, "low"
+		if a >= 0x4000 {
+			page, win = hi, "high"
+		}
+		if off >= 0x147 && off <= 0x149 {
+			continue
+		}
+		w.c.Count("stored_to_bytes_reread", 1)
+		if got, want := w.m.Mem.Read(a), w.expectByte(page, off); got != want {
+			w.fail(win, page, off, got, want, what+"; the byte at an address that was stored to")
+			return false
+		}
+	}
 	for _, off := range probeOffs {
 		if off >= 0x147 && off <= 0x149 {
 			continue
